@@ -5,7 +5,7 @@ from pyvc import driver
 
 
 def standard(pid, tier, seed, collect, trusted, search_script, search_spec, thorough_spec=None, bounded_text="",
-             lemmas=(), level="proof", notes=(), select=True, extra_quick=None):
+             lemmas=(), level="proof", notes=(), select=True, extra_quick=None, quick_search=False):
     res = driver.Result(pid, tier, seed)
     res.trusted = list(trusted)
     res.lemmas = list(lemmas)
@@ -14,6 +14,8 @@ def standard(pid, tier, seed, collect, trusted, search_script, search_spec, thor
     collect(res)
     if select:
         res.obligations = driver.select(res.obligations, pid)
+    from . import deps
+    deps.add(res, pid)
     if not res.obligations and not res.struct:
         res.faults.append("no obligations generated")
         return res
@@ -46,6 +48,20 @@ def standard(pid, tier, seed, collect, trusted, search_script, search_spec, thor
         res.violations.append({"obligation": names[0], "replay": path, "input_found": ok})
     if extra_quick:
         extra_quick(res)
+    if quick_search and search_script and tier == "quick" and not res.violations:
+        # the small-scope run of the real code against the property's reference reading is cheap: run it on every change as well
+        out = driver.harness_json(search_script, "search", search_spec, timeout=1500)
+        res.bounded.append({"what": "contract cross-check on the real code at the quick bound (never counted as proved): " + bounded_text,
+                            "bound": json.dumps(search_spec), "evaluations": out.get("evaluations", 0),
+                            "distinct_nontrivial": out.get("nontrivial", 0), "rule": "non-trivial = tree with more than one node",
+                            "found": out.get("found"), "error": out.get("error")})
+        if out.get("found"):
+            path = driver.write_replay(res, "bounded:" + json.dumps(out["case"], sort_keys=True),
+                                       {"property": pid, "case": out["case"], "observed": out["result"],
+                                        "how_found": "bounded cross-check (quick tier)", "harness": search_script})
+            res.violations.append({"obligation": "bounded", "replay": path, "input_found": True})
+        elif out.get("error"):
+            res.faults.append("bounded cross-check failed to run: %s" % out["error"][-300:])
     if tier == "thorough" and search_script and thorough_spec is not None:
         spec = thorough_spec
         out = driver.harness_json(search_script, "search", spec, timeout=6000)
